@@ -48,8 +48,14 @@ def run(rep, tier):
 
     def is_inc_inflight(e):
         return (e.get("k") == "call" and e.get("op") == "++" and P(e.get("recv")) == inflight) or (e.get("k") == "write" and e.get("op") == "++" and P(e["lhs"]) == inflight)
-    # ---- R1
-    aq = one("add_to_request_callback_queue")
+    # ---- R1 (add_request_callback is read with its private helper add_to_request_callback_queue in place)
+    GF = facts(rep, tu, [r"^pika::mpi::experimental::"], extra=core.MPI_FLAGS, flatten=[r"^pika::mpi::experimental::(detail::)?add_to_request_callback_queue$"])
+    aq = [f for f in GF.find(r"^pika::mpi::experimental::(detail::)?add_request_callback$") if f.parent == -1 and f.file.endswith("mpi_polling.cpp")]
+    if len(aq) != 1:
+        raise AnalysisBroken("mpi_polling.cpp: expected 1 definition of add_request_callback, found %d" % len(aq))
+    aq = aq[0]
+    if aq.calls(r"::add_to_request_callback_queue$"):
+        raise AnalysisBroken("add_request_callback: add_to_request_callback_queue could not be flattened")
     pubs = [(b, i, ev) for b, i, ev in aq.all_events() if ev.get("k") == "call" and (callee_short(ev) == "enqueue" or callee_short(ev) == "add_to_request_callback_vector")]
     inc_a = lambda e: e.get("k") == "call" and callee_short(e) == "increment_global_activity_count"
     if len(pubs) >= 2 and all(precedes_on_all_paths(aq, inc_a, (b, i)) and precedes_on_all_paths(aq, is_inc_inflight, (b, i)) for b, i, ev in pubs):
